@@ -1,10 +1,137 @@
 /- driver ops for property C01 (model side of the correspondence) -/
 import Rsa.Core.Wire
+import Rsa.Core.Calc
 
-open Lean Rsa.Wire
+open Lean Rsa.Wire Rsa Rsa.Calc
 
 namespace Rsa.Drv.C01
 
-def handle : Handler := fun _op _j => none
+instance : Zero Float := ⟨0.0⟩
+instance : One Float := ⟨1.0⟩
+
+def asLbl (j : Json) : R Lbl :=
+  match j with
+  | .str s => pure (.str s)
+  | _ => do let i ← asInt j; pure (.int i)
+
+def ofLbl : Lbl → Json
+  | .int i => ofInt i
+  | .str s => Json.str s
+
+section generic
+variable {α : Type} [Add α] [Sub α] [Mul α] [Div α] [Neg α] [Zero α] [One α] [NatCast α]
+  [LT α] [DecidableLT α] [LE α] [DecidableLE α] [Max α] [Min α]
+
+/-- numeric plumbing of one mode -/
+structure Ops (α : Type) where
+  num : Json → R α
+  out : α → Json
+  sqrt : α → α
+  lg : α → α
+
+def matOfJson (o : Ops α) (j : Json) : R (Nat → Nat → α) := do
+  let rows ← asList (asList o.num) j
+  let arr := (rows.map (fun r => r.toArray)).toArray
+  pure (fun a b => (arr.getD a #[]).getD b 0)
+
+def methodOf (o : Ops α) (j : Json) (noise : Json) : R (Method α) := do
+  let name ← fld j "method" >>= asStr
+  match name with
+  | "euclidean" => pure .euclidean
+  | "correlation" => pure .correlation
+  | "mahalanobis" =>
+      if noise.isNull then pure (.mahalanobis none)
+      else do pure (.mahalanobis (some (← matOfJson o noise)))
+  | "poisson" => do
+      let pl ← fld j "pl" >>= o.num
+      let pw ← fld j "pw" >>= o.num
+      pure (.poisson pl pw)
+  | m => throw s!"unknown method {m}"
+
+def rowsOf (o : Ops α) (j : Json) : R (List (Row α)) := do
+  let rows ← asList (asList o.num) j
+  pure (rows.map rowOfList)
+
+def rdmJson (o : Ops α) (r : Rdm α Lbl Lbl) : Json :=
+  obj [("labels", ofList ofLbl r.labels), ("vec", ofList o.out r.vec),
+       ("descs", ofList (ofOpt (ofList ofLbl)) r.descs)]
+
+/-- one dataset: `X`, `labels` (or null), `descs` -/
+def calcOne (o : Ops α) (j : Json) : R Json := do
+  let P ← fld j "P" >>= asNat
+  let m ← methodOf o j (fldD j "noise" Json.null)
+  let rm ← asBool (fldD j "remove_mean" (Json.bool false))
+  let rows ← fld j "X" >>= rowsOf o
+  let labj := fldD j "labels" Json.null
+  if labj.isNull then
+    pure (obj [("vec", ofList o.out (calcRdmNoDesc P o.sqrt o.lg m rm rows))])
+  else do
+    let lab ← asList asLbl labj
+    let descs ← asList (asList asLbl) (fldD j "descs" (Json.arr #[]))
+    pure (rdmJson o (calcRdm P o.sqrt o.lg Lbl.le m rm (lab.zip rows) descs))
+
+/-- list of datasets; `noises` is null or one matrix per dataset -/
+def calcList (o : Ops α) (j : Json) : R Json := do
+  let P ← fld j "P" >>= asNat
+  let rm ← asBool (fldD j "remove_mean" (Json.bool false))
+  let dsj ← fld j "datasets" >>= asArr
+  let nsj := fldD j "noises" Json.null
+  let noises ← if nsj.isNull then pure (dsj.map (fun _ => Json.null)) else asArr nsj
+  let ms ← noises.mapM (methodOf o j)
+  let labelled ← asBool (fldD j "labelled" (Json.bool true))
+  if labelled then do
+    let dss ← dsj.mapM (fun d => do
+      let rows ← fld d "X" >>= rowsOf o
+      let lab ← fld d "labels" >>= asList asLbl
+      pure (lab.zip rows))
+    let (all, vecs) := calcRdmList P o.sqrt o.lg Lbl.le ms rm dss
+    pure (obj [("labels", ofList ofLbl all), ("vecs", ofList (ofList (ofOpt o.out)) vecs)])
+  else do
+    let dss ← dsj.mapM (fun d => fld d "X" >>= rowsOf o)
+    let vecs := (ms.zip dss).map (fun p => calcRdmNoDesc P o.sqrt o.lg p.1 rm p.2)
+    pure (obj [("vecs", ofList (ofList o.out) vecs)])
+
+/-- temporal dataset: `X[obs][channel][time]`, `times`, `bins` (null or list of lists) -/
+def calcMovieOp (o : Ops α) (j : Json) : R Json := do
+  let P ← fld j "P" >>= asNat
+  let m ← methodOf o j (fldD j "noise" Json.null)
+  let xs ← fld j "X" >>= asList (asList (asList o.num))
+  let trows : List (TRow α) := xs.map (fun chans =>
+    let arr := (chans.map (fun r => r.toArray)).toArray
+    fun c t => (arr.getD c #[]).getD t 0)
+  let times ← fld j "times" >>= asList asRat
+  let bins ← asOpt (asList (asList asRat)) (fldD j "bins" Json.null)
+  let labj := fldD j "labels" Json.null
+  if labj.isNull then
+    let fr := calcMovieNoDesc P o.sqrt o.lg m (trows.map (fun r => ((), r))) times bins
+    pure (obj [("frames", ofList (fun f => obj [("time", ofRat f.1), ("vec", ofList o.out f.2)]) fr)])
+  else do
+    let lab ← asList asLbl labj
+    let fr := calcMovie (D := Lbl) P o.sqrt o.lg Lbl.le m (lab.zip trows) times bins
+    pure (obj [("frames", ofList (fun f => obj [("time", ofRat f.1),
+      ("labels", ofList ofLbl f.2.labels), ("vec", ofList o.out f.2.vec)]) fr)])
+
+end generic
+
+def ratOps : Ops Rat := { num := asRat, out := ofRat, sqrt := fun x => x, lg := fun x => x }
+def floatOps : Ops Float :=
+  { num := asFloat, out := ofFloat, sqrt := Float.sqrt, lg := Float.log }
+
+def withMode (j : Json) (fr : Ops Rat → Json → R Json) (ff : Ops Float → Json → R Json) :
+    R Json := do
+  let mode ← asStr (fldD j "mode" (Json.str "rat"))
+  if mode == "float" then ff floatOps j else fr ratOps j
+
+def unique (j : Json) : R Json := do
+  let lab ← fld j "labels" >>= asList asLbl
+  pure (obj [("unique", ofList ofLbl (uniqueFirst lab)), ("inverse", ofList ofNat (inverse lab))])
+
+def handle : Handler := fun op j =>
+  match op with
+  | "c01.unique" => some (unique j)
+  | "c01.calc" => some (withMode j calcOne calcOne)
+  | "c01.list" => some (withMode j calcList calcList)
+  | "c01.movie" => some (withMode j calcMovieOp calcMovieOp)
+  | _ => none
 
 end Rsa.Drv.C01
